@@ -79,7 +79,7 @@ def t3_reexport() -> Iterator[Dict[str, Any]]:
     """T3: re-exports (C07): re-exporter = parent package | sibling module, import = plain | as | star,
        consumers import from origin | re-exporter | both; the object carries a member."""
     for where, form, cons in itertools.product(["pkg", "sibling"], ["plain", "as", "star"],
-                                               [["o"], ["r"], ["o", "r"], ["o2"]]):
+                                               [["o"], ["r"], ["o", "r"], ["o2"], ["ostar"]]):
         exported = "Z" if form == "as" else "X"
         imp_ops = {"plain": [frm("_impl", "X", lvl=1)], "as": [frm("_impl", "X", "Z", lvl=1)],
                    "star": [star("_impl", lvl=1)]}[form]
@@ -91,6 +91,8 @@ def t3_reexport() -> Iterator[Dict[str, Any]]:
         for c in cons:
             if c == "o":
                 mods.append(mod("co", 1, ops=flat(frm("p._impl", "X", "Y"), cls("D", "Y"), cls("D3", "Y.In"))))
+            elif c == "ostar":  # star import of the defining module (after the move only the alias left behind carries the name)
+                mods.append(mod("cs", 1, ops=flat(star("p._impl"), cls("D5", "X"))))
             elif c == "o2":     # module alias to the origin
                 mods.append(mod("cm", 1, ops=flat(imp("p._impl", "im"), cls("D2", "im.X"), cls("D4", "im.X.In"))))
             else:
@@ -153,6 +155,13 @@ def t5_duplicates() -> Iterator[Dict[str, Any]]:
     yield project([mod("p", pkg=True, ops=[frm("_impl", "Outer", lvl=1)], all=["Outer"]),
                    mod("_impl", 1, ops=flat(cls("Outer", body=flat(cls("Inner", body=[fn("f"), fn("f")]), cls("Inner")))))],
                   "T5", shape="dup-in-dup-then-move")
+    # a re-exported class is defined again in the importing module: the moved class is superseded with all its members
+    yield project([mod("p", pkg=True, ops=flat(frm("_impl", "X", lvl=1), cls("X", body=[fn("h")])), all=["X"]),
+                   mod("_impl", 1, ops=flat(cls("X", body=flat(fn("run"), cls("In", body=[fn("deep")])))))], "T5", shape="move-then-redefine")
+    # the same name imported twice by the re-exporter (explicitly, then by a star import): the second handling is a move onto itself
+    yield project([mod("p", pkg=True, ops=flat(frm("_impl", "X", lvl=1), star("_impl", lvl=1)), all=["X", "helper"]),
+                   mod("_impl", 1, ops=flat(cls("X", body=[fn("meth")]), fn("helper"))),
+                   mod("zuser", 1, ops=flat(frm("p", "X"), cls("Sub", "X")))], "T5", shape="move-same-name-twice")
     for form in ("plain", "star"):
         imp_ops = [frm("_impl", "X", lvl=1)] if form == "plain" else [star("_impl", lvl=1)]
         yield project([mod("p", pkg=True, ops=imp_ops, all=["X"]),
@@ -340,7 +349,7 @@ def t_c04_class_members() -> Iterator[Dict[str, Any]]:
 def t10_double_reexport() -> Iterator[Dict[str, Any]]:
     """T10: one class re-exported by TWO modules (outside 'objects re-exported by a single module': its location may
        depend on the order) and a consumer naming the defining module."""
-    yield project([mod("p", pkg=True), mod("m0", 1, ops=flat(cls("A"))),
+    yield project([mod("p", pkg=True), mod("m0", 1, ops=flat(cls("A", body=flat(fn("run"), cls("In", body=[fn("deep")]))))),
                    mod("m1", 1, ops=[frm("p.m0", "A")], all=["A"]), mod("m2", 1, ops=[frm("p.m0", "A")], all=["A"]),
                    mod("m3", 1, ops=flat(frm("p.m0", "A", "RA"), cls("F", "RA"), cls("G", "F")))], "T10")
 
@@ -348,7 +357,8 @@ def t10_double_reexport() -> Iterator[Dict[str, Any]]:
 def family_list() -> List[Any]:
     return [t1_base_chains, t1_exceptions, t2_star, t3_reexport, t4_cycles, t5_duplicates, t6_nested_packages,
             t7_moved_class_with_moved_base, t8_prefix_roots, t9_reexport_while_origin_processing, t10_double_reexport,
-            t12_instance_variable_kind, t13_attribute_docstring_after_import]
+            t12_instance_variable_kind, t13_attribute_docstring_after_import,
+            t11_cycle_rename_and_consumer_first, t14_two_roots_facade]
 
 
 def t12_instance_variable_kind() -> Iterator[Dict[str, Any]]:
@@ -374,3 +384,24 @@ def t13_attribute_docstring_after_import() -> Iterator[Dict[str, Any]]:
     from .projects import strdoc
     yield project([mod("p", pkg=True), mod("client", 1, ops=flat(var("RETRIES"), frm("settings", "TIMEOUT", lvl=1), strdoc(1))),
                    mod("settings", 1, ops=flat(var("TIMEOUT"), {**var("VERSION"), "nodoc": True}))], "T13")
+
+
+def t11_cycle_rename_and_consumer_first() -> Iterator[Dict[str, Any]]:
+    """T11: _impl and _sub import each other (valid Python), Foo is re-exported renamed (Foo as Bar) and Sub(Foo) is
+       re-exported too; a module analysed before / after the package imports straight from the defining module."""
+    for cname in ("app", "zapp"):
+        yield project([mod("root", pkg=True),
+                       mod("pkg", 1, pkg=True, ops=[frm("_impl", "Foo", "Bar", lvl=1), frm("_sub", "Sub", lvl=1)], all=["Bar", "Sub"]),
+                       mod("_impl", 2, ops=flat(frm("_sub", "helper", lvl=1), cls("Foo", body=[fn("meth")]))),
+                       mod("_sub", 2, ops=flat(fn("helper"), frm("_impl", "Foo", lvl=1), cls("Sub", "Foo"))),
+                       mod(cname, 1, ops=flat(frm("root.pkg._impl", "Foo"), cls("User", "Foo")))], "T11", consumer=cname, cyclic=True)
+
+
+def t14_two_roots_facade() -> Iterator[Dict[str, Any]]:
+    """T14: root `core` uses shapes.Shape through a module alias in its own __init__ before another root `facade`
+       re-exports core.shapes.Shape; later consumers import it from the defining module."""
+    yield project([mod("core", pkg=True, ops=flat(frm("", "shapes", lvl=1), cls("DefaultShape", "shapes.Shape"))),
+                   mod("shapes", 1, ops=flat(cls("Shape", body=[fn("area")]))),
+                   mod("user", 1, ops=flat(frm("core.shapes", "Shape"), cls("Circle", "Shape"), frm("", "shapes", "sh", lvl=1), cls("Sq", "sh.Shape"))),
+                   mod("facade", pkg=True, ops=[frm("core.shapes", "Shape")], all=["Shape"]),
+                   mod("extra", 4, ops=flat(frm("core.shapes", "Shape"), cls("Tri", "Shape")))], "T14")
